@@ -143,6 +143,9 @@ KeysOk(e) ==
                  [] ph.ph = "scan"           -> ph.sets = <<>> /\ ph.dels = <<>> /\ SetOf(ph.seeks) = {DP}
                  [] ph.ph = "indexscan"      -> /\ ph.sets = <<>> /\ ph.dels = <<>>
                                                 /\ \A k \in SetOf(ph.seeks) : k = DP \/ HasPrefix(k, IP)
+                 \* a backwards visit of the index starts inside the index's own prefix
+                 [] ph.ph = "revscan"        -> /\ ph.sets = <<>> /\ ph.dels = <<>>
+                                                /\ \A k \in SetOf(ph.seeks) : k = DP \/ HasPrefix(k, IP)
                  [] ph.ph = "list"           -> ph.sets = <<>> /\ ph.dels = <<>> /\ SetOf(ph.seeks) = {MetaPrefix}
                  [] ph.ph = "dropindex"      -> SetOf(ph.sets) = {M} /\ SetOf(ph.dels) = {En} /\ SetOf(ph.seeks) = {IP}
                  [] ph.ph = "dropcollection" -> /\ SetOf(ph.sets) \subseteq {M} /\ SetOf(ph.dels) = {M, D, En}
